@@ -1,18 +1,26 @@
 (* C15 — Paged List RPCs enumerate every item exactly once.
    Theorems only; proofs live in Pages/*Proofs.v.  Reading guide:
-     - [keys]   the listing the handler pages over: strictly ascending (Go string order), no empty key
-                ([keys_wf]); for waste [ids] is the log in insertion order, listed newest first;
-     - [size]   the request's page_size; [cap_page_size] / [waste_count] what the handler makes of it;
-     - [key_chain v keys size fuel tok] the answers a client sees when it starts with token [tok]
-                and follows next_page_token, making at most [fuel] calls;
+     - [keys]   the listing the handler pages over: strictly ascending (Go string order), no empty key,
+                valid UTF-8 ([keys_wf]); for waste [ids] is the log in insertion order, listed newest first;
+     - [sizes]  the page_size of EACH request of a chain (request i sends sizes[i]; they may all differ);
+                the client makes at most [length sizes] calls;
+     - [cfg_of s] the configuration of RPC [s] as READ FROM THE TREE on every run (Gen/Pagers.v: default
+                and max page size, base64 alphabets of encodePageToken / decodePageToken, search
+                operator, validatePageSize called, listing read through the read mask or not);
+     - [key_chain cfg keys dropkey sizes (WFirst tok)] the answers a client sees when it starts with
+                token [tok] and follows next_page_token; next tokens travel as the raw base64 text the
+                server minted and are decoded by the model's decoder; [dropkey]: the read mask of the
+                requests leaves the key field out;
      - [chain_shape_ok obs]  every answer is a page, every page but the last carries a token, the
                 last one carries none (the chain ended by itself);
      - [concat_keys obs]     the items of all pages, in the order received;
-     - [pages_within c n obs] every page has at most c items and reports total_size n.
-   All statements are for every listing / log, every size and every token (induction on the
-   listing and on the number of calls). *)
-From SC Require Import Base.Prelude Pages.Pager Pages.C15Judge
-  Pages.PagerProofs Pages.WasteProofs Pages.C15JudgeProofs.
+     - [pages_within_sizes n sizes obs] answer i has at most spec_cap sizes[i] items (default 50, cap
+                1000) and reports total_size n;
+     - [calls_key r sizes]   the number of calls it takes to list r items with those page sizes.
+   All statements are for every listing / log, every page-size sequence and every token (induction on
+   the number of calls); the six key-token RPCs are instances of ONE generic pager. *)
+From SC Require Import Base.Prelude Pages.Codec Pages.CodecProofs Pages.PagerCfg Gen.Pagers Pages.Pager
+  Pages.C15Judge Pages.PagerProofs Pages.WasteProofs Pages.PagerTable Pages.C15JudgeProofs.
 
 (* page size: default 50, cap 1000 *)
 Theorem C15_cap_page_size : forall size, 0 <= size ->
@@ -20,23 +28,84 @@ Theorem C15_cap_page_size : forall size, 0 <= size ->
 Proof. exact cap_page_size_spec. Qed.
 Print Assumptions C15_cap_page_size.
 
-(* The six key-token RPCs.  From the empty token (tok = TokEmpty, expected_after keys tok = keys)
-   or from any well-formed token (the items after the named key, whether or not that key still
-   exists): the chain ends by itself after exactly |rest| / cap + 1 calls, and the pages are
-   exactly the remaining items, in order, each once, each page within the cap, total_size = n. *)
-Theorem C15_pages_enumerate : forall (s : server) keys size tok fuel,
-  keys_wf keys = true -> 0 <= size -> tok <> TokMalformed ->
+(* ---- the tie to the source: tables generated from the tree on every run ---- *)
+
+(* every pages.go is the modelled text with default 50 / max 1000 and one base64 alphabet for both
+   directions; every List handler is the modelled text; all six RPCs have a row; the waste handler
+   and Model.ListWasteRecords are the modelled text *)
+Theorem C15_source_tables_ok :
+  forallb pages_go_ok pages_go_table = true
+  /\ forallb handler_ok handler_table = true
+  /\ map h_server handler_table = all_servers
+  /\ w_handler_shape waste_source && w_model_shape waste_source = true.
+Proof. exact (conj pages_go_table_ok (conj handler_table_ok (conj handler_table_covers waste_source_ok))). Qed.
+Print Assumptions C15_source_tables_ok.
+
+(* the configuration read from the tree is, for every RPC, the hand model and satisfies [cfg_ok] *)
+Theorem C15_cfg_is_model : forall s,
+  cfg_eqb (cfg_of s) (std_cfg (variant_of s)) = true /\ cfg_ok (cfg_of s) = true.
+Proof. intros s. exact (conj (cfg_of_is_model s) (all_cfg_ok s)). Qed.
+Print Assumptions C15_cfg_is_model.
+
+(* page-token codec: decodePageToken (encodePageToken k) = k for EVERY key (valid UTF-8, any length),
+   for either base64 alphabet, as long as both directions use the same one ... *)
+Theorem C15_token_codec_roundtrip : forall a k, key_utf8 k = true ->
+  decode_token a (encode_token a k) = DKey k.
+Proof. exact token_roundtrip. Qed.
+Print Assumptions C15_token_codec_roundtrip.
+
+(* ... which every package does (read from the source) *)
+Theorem C15_codec_symmetric_per_package :
+  forall p, In p pages_go_table -> pg_enc p = pg_dec p /\ pg_enc p <> B64Other.
+Proof. exact codec_symmetric_per_package. Qed.
+Print Assumptions C15_codec_symmetric_per_package.
+
+(* ... and it is needed: URL-safe encode + standard decode (seeded change C15-r3-3) loses "~" *)
+Theorem C15_codec_mixed_alphabets_refuted :
+  decode_token B64Std (encode_token B64Url "~"%string) = DBad
+  /\ decode_token B64Url (encode_token B64Std "~"%string) = DBad.
+Proof. vm_compute. split; reflexivity. Qed.
+Print Assumptions C15_codec_mixed_alphabets_refuted.
+
+(* ---- HEADLINE: the six key-token RPCs ---- *)
+
+(* For every RPC, every well-formed listing, every first token that decodes (empty, present key,
+   absent/deleted key, a token minted by another RPC, carrying whatever unknown fields [extra] -
+   the server hands those on in its own tokens), EVERY sequence of non-negative page
+   sizes, one per request, with or without a read mask that leaves the key out: following
+   next_page_token terminates by itself (within |rest| + 1 calls, exactly calls_key of them),
+   the pages are exactly the remaining items, in order, each once, page i within the cap of the
+   size request i asked for, total_size = n. *)
+Theorem C15_pages_enumerate : forall (s : server) keys dropkey sizes tok extra,
+  keys_wf keys = true -> in32 (zlen keys) = true ->
+  Forall (fun z => 0 <= z) sizes -> tok <> TokMalformed -> Forall is_byte extra ->
+  let rest := expected_after keys tok in
+  zlen rest < zlen sizes ->
+  let obs := key_chain (cfg_of s) keys dropkey sizes (WFirst tok extra) in
+  chain_shape_ok obs = true
+  /\ concat_keys obs = rest
+  /\ NoDup (concat_keys obs)
+  /\ pages_within_sizes (zlen keys) sizes obs
+  /\ zlen obs = calls_key (zlen rest) sizes
+  /\ zlen obs <= zlen rest + 1.
+Proof. exact key_pages_enumerate. Qed.
+Print Assumptions C15_pages_enumerate.
+
+(* ... with the same page size on every request: exactly |rest| / cap + 1 calls (the trailing empty
+   page when |rest| is a multiple of the cap is what the code does) *)
+Theorem C15_pages_enumerate_same_size : forall (s : server) keys dropkey size tok extra fuel,
+  keys_wf keys = true -> in32 (zlen keys) = true -> 0 <= size -> tok <> TokMalformed -> Forall is_byte extra ->
   let rest := expected_after keys tok in
   let c := cap_page_size size in
-  zlen rest / c + 1 <= Z.of_nat fuel ->
-  let obs := key_chain (variant_of s) keys size fuel tok in
+  zlen rest / c + 1 <= Z.of_nat fuel -> zlen rest < Z.of_nat fuel ->
+  let obs := key_chain (cfg_of s) keys dropkey (const_sizes size fuel) (WFirst tok extra) in
   zlen obs = zlen rest / c + 1
   /\ chain_shape_ok obs = true
   /\ concat_keys obs = rest
   /\ NoDup (concat_keys obs)
   /\ pages_within c (zlen keys) obs.
-Proof. exact key_pages_enumerate. Qed.
-Print Assumptions C15_pages_enumerate.
+Proof. exact key_pages_enumerate_const. Qed.
+Print Assumptions C15_pages_enumerate_same_size.
 
 (* ... in particular from the first page: everything *)
 Theorem C15_first_token_lists_everything : forall keys, expected_after keys TokEmpty = keys.
@@ -44,57 +113,87 @@ Proof. reflexivity. Qed.
 Print Assumptions C15_first_token_lists_everything.
 
 (* ListChildren's search-then-skip computes the same page as the other five handlers *)
-Theorem C15_parent_variant_same : forall keys tok size,
-  strictly_sorted keys = true -> key_page VGeSkip keys tok size = key_page VGreater keys tok size.
+Theorem C15_parent_variant_same : forall c keys w size,
+  strictly_sorted keys = true ->
+  key_page (with_variant c VGeSkip) keys false w size = key_page (with_variant c VGreater) keys false w size.
 Proof. exact key_page_variants_agree. Qed.
 Print Assumptions C15_parent_variant_same.
 
 (* malformed token or negative page size: one InvalidArgument, for every collection *)
-Theorem C15_bad_input_is_error : forall v keys size tok fuel,
+Theorem C15_bad_input_is_error : forall s keys dropkey size sizes tok extra,
   tok = TokMalformed \/ size < 0 ->
-  key_chain v keys size (S fuel) tok = [OErr InvalidArgument].
+  key_chain (cfg_of s) keys dropkey (size :: sizes) (WFirst tok extra) = [OErr InvalidArgument].
 Proof. exact key_bad_input_rejected. Qed.
 Print Assumptions C15_bad_input_is_error.
 
-(* never a panic, whatever the client sends and however long it goes on *)
-Theorem C15_never_panics : forall s keys size tok fuel,
-  keys_wf keys = true -> ~ In OPanic (key_chain (variant_of s) keys size fuel tok).
+(* never a panic, whatever the client sends (token, page sizes - negative ones too) and however
+   long it goes on *)
+Theorem C15_never_panics : forall s keys dropkey sizes tok extra,
+  keys_wf keys = true -> Forall is_byte extra ->
+  ~ In OPanic (key_chain (cfg_of s) keys dropkey sizes (WFirst tok extra)).
 Proof. exact key_never_panics. Qed.
 Print Assumptions C15_never_panics.
 
-(* Waste: from the first page the log is listed newest first, each record once, pages within the
-   cap, total_size = n, ceil(n / cap) calls (one for an empty log) and no empty page otherwise. *)
-Theorem C15_waste_pages_enumerate : forall ids size fuel,
-  0 <= size ->
+(* total_size is int32(len(items)): right as long as the collection has at most 2^31 - 1 items
+   (hypothesis [in32] above); a listing of exactly 2^31 items would report -2^31 *)
+Theorem C15_total_size_beyond_int32_refuted : forall c keys,
+  cfg_ok c = true -> zlen keys = 2147483648 ->
+  exists ks nx, key_page c keys false (WFirst TokEmpty []) 0 = OPage ks nx (-2147483648).
+Proof. exact total_size_wraps. Qed.
+Print Assumptions C15_total_size_beyond_int32_refuted.
+
+(* ---- HEADLINE: waste ---- *)
+
+(* Any log, any sequence of non-negative page sizes: from the first page the log is listed newest
+   first, each record once, page i within the cap of sizes[i], total_size = n, exactly
+   calls_waste n sizes <= max n 1 calls and no empty page unless the log is empty. *)
+Theorem C15_waste_pages_enumerate : forall ids sizes,
+  in32 (zlen ids) = true -> Forall (fun z => 0 <= z) sizes ->
+  Z.max (zlen ids) 1 <= zlen sizes ->
+  let obs := waste_chain ids sizes WEmpty in
+  chain_shape_ok obs = true
+  /\ concat_keys obs = rev ids
+  /\ pages_within_sizes (zlen ids) sizes obs
+  /\ zlen obs = calls_waste (zlen ids) sizes
+  /\ zlen obs <= Z.max (zlen ids) 1
+  /\ (ids <> [] -> Forall (fun o => page_keys o <> []) obs).
+Proof. exact waste_pages_enumerate. Qed.
+Print Assumptions C15_waste_pages_enumerate.
+
+Theorem C15_waste_pages_enumerate_same_size : forall ids size fuel,
+  in32 (zlen ids) = true -> 0 <= size ->
   let c := waste_count size in
   let calls := (Z.max (zlen ids) 1 - 1) / c + 1 in
-  calls <= Z.of_nat fuel ->
-  let obs := waste_chain ids size fuel WEmpty in
+  Z.max (zlen ids) 1 <= Z.of_nat fuel ->
+  let obs := waste_chain ids (const_sizes size fuel) WEmpty in
   zlen obs = calls
   /\ chain_shape_ok obs = true
   /\ concat_keys obs = rev ids
   /\ pages_within c (zlen ids) obs
   /\ (ids <> [] -> Forall (fun o => page_keys o <> []) obs).
-Proof. exact waste_pages_enumerate. Qed.
-Print Assumptions C15_waste_pages_enumerate.
+Proof. exact waste_pages_enumerate_const. Qed.
+Print Assumptions C15_waste_pages_enumerate_same_size.
 
-Theorem C15_waste_bad_input_is_error : forall ids size tok fuel,
+Theorem C15_waste_bad_input_is_error : forall ids size sizes tok,
   tok = WMalformed \/ (exists z, tok = WNum z /\ (z < 0 \/ zlen ids < z)) \/ size < 0 ->
-  waste_chain ids size (S fuel) tok = [OErr InvalidArgument].
+  waste_chain ids (size :: sizes) tok = [OErr InvalidArgument].
 Proof. exact waste_bad_input_rejected. Qed.
 Print Assumptions C15_waste_bad_input_is_error.
 
+(* ---- the judge ---- *)
+
 (* The predicate the harness evaluates on every observed chain holds of the model for every
    input, all seven RPCs, every first token (empty, well-formed, malformed, out of range) and
-   every page size including negative ones ... *)
-Theorem C15_model_satisfies_property_keys : forall s keys size tok,
-  keys_wf keys = true ->
-  C15_ok (KKeys s keys size tok (key_chain (variant_of s) keys size (harness_fuel keys) tok)) = true.
-Proof. exact key_model_ok. Qed.
+   every page-size sequence including negative sizes anywhere in the chain ... *)
+Theorem C15_model_satisfies_property_keys : forall s keys dropkey sizes raw0 tok extra,
+  keys_wf keys = true -> in32 (zlen keys) = true -> zlen keys < zlen sizes -> Forall is_byte extra ->
+  C15_ok (KKeys s keys dropkey sizes raw0 tok extra (key_chain (cfg_of s) keys dropkey sizes (WFirst tok extra))) = true.
+Proof. intros s keys dropkey sizes raw0 tok extra. apply key_model_ok. apply all_cfg_ok. Qed.
 Print Assumptions C15_model_satisfies_property_keys.
 
-Theorem C15_model_satisfies_property_waste : forall ids size tok,
-  C15_ok (KWaste ids size tok (waste_chain ids size (harness_fuel ids) tok)) = true.
+Theorem C15_model_satisfies_property_waste : forall ids sizes tok,
+  in32 (zlen ids) = true -> zlen ids < zlen sizes ->
+  C15_ok (KWaste ids sizes tok (waste_chain ids sizes tok)) = true.
 Proof. exact waste_model_ok. Qed.
 Print Assumptions C15_model_satisfies_property_waste.
 
@@ -103,13 +202,35 @@ Theorem C15_judge_sound : forall c, C15_guard c = true -> agrees c = true -> C15
 Proof. exact judge_sound. Qed.
 Print Assumptions C15_judge_sound.
 
-(* ---- the handlers before the fix commits: the property's last clause was false ---- *)
+(* ---- the handlers before the fix commits: the property was false ---- *)
 
-(* negative page size, key-token servers: a panic for EVERY collection (index before the slice) *)
-Theorem C15_negative_page_size_v0_refuted : forall v keys size,
-  size < 0 -> key_page_v0 v keys TokEmpty size = OPanic.
-Proof. exact key_page_v0_negative_panics. Qed.
+(* before 97d7676 (no validatePageSize): negative page size, key-token servers: a panic for EVERY
+   collection (index before the slice) *)
+Theorem C15_negative_page_size_v0_refuted : forall s keys dropkey size,
+  size < 0 -> key_page (cfg_no_validate (cfg_of s)) keys dropkey (WFirst TokEmpty []) size = OPanic.
+Proof.
+  intros s keys dropkey size. destruct (cfg_ok_spec _ (all_cfg_ok s)) as [Hd [Hm _]].
+  apply key_page_no_validate_negative_panics; assumption.
+Qed.
 Print Assumptions C15_negative_page_size_v0_refuted.
+
+(* before the read-mask fix (the five resource.Collection handlers paged model.List(WithReadMask)):
+   with a read mask that leaves the key field out, whenever one full page fits (cap <= n) the
+   chain NEVER ends: however many calls the client makes, every answer is the first page again
+   with a token naming "" *)
+Theorem C15_read_mask_without_key_v0_refuted : forall s keys size fuel,
+  0 <= size -> cap_page_size size <= zlen keys ->
+  key_chain (cfg_mask_before (cfg_of s)) keys true (const_sizes size fuel) (WFirst TokEmpty [])
+  = repeat (OPage (firstn (Z.to_nat (cap_page_size size)) keys)
+                  (Some (encode_token (pc_enc (cfg_of s)) EmptyString)) (wrap32 (zlen keys))) fuel.
+Proof.
+  intros s keys size fuel Hs Hfit.
+  rewrite (key_chain_mask_before_endless (cfg_of s) keys size (all_cfg_ok s) Hs Hfit (const_sizes size fuel)).
+  - unfold const_sizes. induction fuel; simpl; congruence.
+  - apply Forall_forall. intros z Hz. apply repeat_spec in Hz. exact Hz.
+  - repeat split. discriminate.
+Qed.
+Print Assumptions C15_read_mask_without_key_v0_refuted.
 
 (* waste, negative page size: the newest record and no error *)
 Theorem C15_waste_negative_page_size_v0_refuted :
@@ -128,25 +249,35 @@ Print Assumptions C15_waste_token_range_v0_refuted.
 
 (* ---- non-vacuity ---- *)
 
-(* a well-formed listing with ids that are prefixes of each other; page size 2 divides n = 4:
-   two full pages and the (allowed) trailing empty page, 4/2 + 1 = 3 calls *)
+(* a well-formed listing with ids that are prefixes of each other and a two-byte UTF-8 id; page
+   sizes 2 then 1 then 5000: the raw tokens are what the server mints ("EgJhIA==" names "a ") *)
 Example C15_nonvacuous_keys :
-  let keys := ["a"; "a "; "a b"; "ab"]%string in
+  let keys := ["a"; "a "; "a b"; "ab"; bstr [195; 169]]%string in
   keys_wf keys = true
-  /\ key_chain VGeSkip keys 2 10 TokEmpty
-     = [OPage ["a"; "a "]%string (Some "a "%string) 4; OPage ["a b"; "ab"]%string (Some "ab"%string) 4; OPage [] None 4]
-  /\ (* a token naming an absent key between "a b" and "ab" *)
-     key_chain VGreater keys 2 10 (TokKey "a!"%string) = [OPage ["ab"%string] None 4].
+  /\ key_chain (cfg_of SParent) keys false [2; 1; 5000; 0] (WFirst TokEmpty [])
+     = [OPage ["a"; "a "]%string (Some "EgJhIA=="%string) 5; OPage ["a b"]%string (Some "EgNhIGI="%string) 5;
+        OPage ["ab"%string; bstr [195; 169]] None 5]
+  /\ (* same page size throughout, 4 items after "a", 2 divides 4: the (allowed) trailing empty page *)
+     List.length (key_chain (cfg_of SHail) keys true (const_sizes 2 9) (WFirst (TokKey "a"%string) [])) = 3%nat
+  /\ (* a token naming an absent key between "a b" and "ab" and carrying unknown field 3 = 1 (bytes
+        24 1): the server's own token hands the unknown field on *)
+     key_chain (cfg_of SElectric) keys false [2; 2] (WFirst (TokKey "a!"%string) [24; 1])
+     = [OPage ["ab"%string; bstr [195; 169]] (Some "EgLDqRgB"%string) 5; OPage [] None 5].
 Proof. vm_compute. repeat split. Qed.
 
-(* waste: five records, page size 2: 2 + 2 + 1, tokens 3 and 1, no trailing empty page *)
+(* waste: five records, page sizes 2, 1, 7: tokens 3 and 2, no trailing empty page *)
 Example C15_nonvacuous_waste :
-  waste_chain ["r0"; "r1"; "r2"; "r3"; "r4"]%string 2 10 WEmpty
-  = [OPage ["r4"; "r3"]%string (Some 3) 5; OPage ["r2"; "r1"]%string (Some 1) 5; OPage ["r0"%string] None 5].
+  waste_chain ["r0"; "r1"; "r2"; "r3"; "r4"]%string [2; 1; 7; 7; 7] WEmpty
+  = [OPage ["r4"; "r3"]%string (Some 3) 5; OPage ["r2"]%string (Some 2) 5; OPage ["r1"; "r0"]%string None 5].
 Proof. vm_compute. reflexivity. Qed.
 
-(* the judge really distinguishes: a chain that skips an item is rejected *)
-Example C15_judge_rejects_skip :
-  C15_ok (KKeys SHail ["a"; "b"; "c"]%string 2 TokEmpty
-            [OPage ["a"; "b"]%string (Some "c"%string) 3; OPage [] None 3]) = false.
-Proof. vm_compute. reflexivity. Qed.
+(* the judge really distinguishes: a chain that skips an item, one that repeats a page after the
+   page size changed (seeded change C15-r3-2), one that never ends *)
+Example C15_judge_rejects :
+  C15_ok (KKeys SHail ["a"; "b"; "c"]%string false [2; 2; 2; 2; 2; 2] EmptyString TokEmpty []
+            [OPage ["a"; "b"]%string (Some "EgFj"%string) 3; OPage [] None 3]) = false
+  /\ C15_ok (KKeys SInventory ["a"; "b"; "c"]%string false [2; 50; 2; 2; 2; 2] EmptyString TokEmpty []
+            [OPage ["a"; "b"]%string (Some "EgFi"%string) 3; OPage ["a"; "b"; "c"]%string None 3]) = false
+  /\ C15_ok (KKeys SElectric ["a"; "b"; "c"]%string true [2; 2; 2; 2; 2; 2] EmptyString TokEmpty []
+            (repeat (OPage ["a"; "b"]%string (Some "EgA="%string) 3) 6)) = false.
+Proof. vm_compute. repeat split. Qed.
